@@ -691,11 +691,11 @@ Section Model.
       + (* omitted key: the basic form has it with value None, which ~ drops *)
         apply andb_true_iff in Eom. destruct Eom as [Eom Evn].
         apply andb_true_iff in Eom. destruct Eom as [Eomit Eopt].
-        destruct x; try discriminate. destruct ft; try discriminate.
+        destruct x; try discriminate.
         destruct (IH ds' r HQ Hr) as [bbs [Hbbs Hrels]].
-        exists ((n, BNone) :: bbs). simpl. rewrite En. try rewrite (pack_eq (basic_of ls) VNone c (TOpt ft)).
-        simpl. rewrite Hbbs. simpl. split; [reflexivity|].
-        unfold rn, side in *. rewrite Eomit in *. simpl. simpl in Hrels. exact Hrels.
+        exists ((n, BNone) :: bbs).
+        destruct ft; try discriminate; simpl; rewrite En; simpl; rewrite Hbbs; simpl; (split; [reflexivity|]);
+          unfold rn, side in *; rewrite Eomit in *; simpl; simpl in Hrels; exact Hrels.
       + inversion HQ as [|? ? Hq1 Hq2]; subst. simpl in Hq1.
         destruct (Hx c ft b Hq1 Hb) as [bb [Hbb Hrel]].
         destruct (IH ds' r Hq2 Hr) as [bbs [Hbbs Hrels]].
